@@ -16,7 +16,7 @@ def main(tier, seed):
     for outer in ("parallel", "sequence"):
         for inner in ("parallel", "sequence"):
             jobs.append(("props.gen", "nested", ("C16", outer, inner, "fifo", 20)))
-    for on in ("step", "workflow", "act"):
+    for on in ("step", "workflow", "act", "step-block", "step-generator"):
         for pol in pols:
             jobs.append(("props.gen", "hooks", ("C16", on, pol, 60 if tier == "quick" else 2000)))
     c.run_jobs(jobs)
